@@ -86,21 +86,29 @@ def run_rule(run, rule_id, rels, _control=False):
             o = eq.node.args.args[1].arg
             cmps = [c for c in walk_local(eq.node) if isinstance(c, ast.Compare) and len(c.ops) == 1 and isinstance(c.ops[0], (ast.Eq, ast.NotEq, ast.Is, ast.IsNot))]
             compared = set()
+            # a comparison of two tuples compares element-wise
+            pairs = []
             for c in cmps:
                 l, r = c.left, c.comparators[0]
+                if isinstance(l, ast.Tuple) and isinstance(r, ast.Tuple) and len(l.elts) == len(r.elts):
+                    pairs.extend((c, a, b) for a, b in zip(l.elts, r.elts))
+                else:
+                    pairs.append((c, l, r))
+            for c, l, r in pairs:
                 dl, dr = dotted(l) or src(l), dotted(r) or src(r)
                 n += 1
                 if dl == dr:
-                    run.ob(False, f"{cname}.__eq__", file=rel, line=c.lineno, detail=src(c)[:50], expected=f"self.<attr> == {o}.<attr>", found=f"`{src(c)}` compares an expression with itself (always true)")
+                    run.ob(False, f"{cname}.__eq__", file=rel, line=c.lineno, detail=f"{dl} vs {dr}", expected=f"self.<attr> == {o}.<attr>", found=f"`{src(c)}` compares an expression with itself (always true)")
                     continue
                 sides = {dl.split(".")[0]: dl, dr.split(".")[0]: dr}
                 if "self" in sides and o in sides and "." in sides["self"] and "." in sides[o]:
                     a1, a2 = sides["self"].split(".", 1)[1], sides[o].split(".", 1)[1]
-                    run.ob(a1 == a2, f"{cname}.__eq__", file=rel, line=c.lineno, detail=src(c)[:50], expected=f"self.{a1} == {o}.{a1}", found=src(c))
+                    run.ob(a1 == a2, f"{cname}.__eq__", file=rel, line=c.lineno, detail=f"{dl} vs {dr}", expected=f"self.{a1} == {o}.{a1}", found=f"{dl} == {dr}")
                     if a1 == a2:
                         compared.add(a1.split(".")[0])
                 else:
-                    run.ob(True, f"{cname}.__eq__", file=rel, line=c.lineno, detail=src(c)[:50], expected="comparison", found=src(c), sample=False)
+                    bad = dl.split(".")[0] == dr.split(".")[0] == "self" or dl.split(".")[0] == dr.split(".")[0] == o
+                    run.ob(not bad, f"{cname}.__eq__", file=rel, line=c.lineno, detail=f"{dl} vs {dr}", expected=f"one side of self, one side of {o}", found=f"{dl} == {dr}", sample=False)
             hs = m.functions.get(f"{cname}.__hash__")
             if hs is not None and cmps:
                 hashed = {x.attr for x in ast.walk(hs.node) if isinstance(x, ast.Attribute) and dotted(x.value) == "self"}
